@@ -53,7 +53,8 @@ Inductive jerr :=
 
 Inductive jres := JOk (real : Z) | JErr (e : jerr).
 
-(* j_par: tcp [addr]; http [domain; location; routeByHTTPUser]; tcpmux [domain; routeByHTTPUser; username; password] *)
+(* j_par: tcp [addr]; http [domain; location; routeByHTTPUser; username; password];
+   tcpmux [domain; routeByHTTPUser; username; password] *)
 Record jreq := { j_m : Z; j_group : Z; j_key : Z; j_par : list Z; j_port : Z;
                  j_pick : Z; j_os : bool; j_lis : bool; j_mux : bool }.
 
@@ -123,7 +124,7 @@ Definition set_env (s : st) (e : list (list Z)) : st :=
 
 (* the endpoint resource a group object owns: the acquired port / the route key *)
 Definition res_of (k : kind) (par : list Z) (real : Z) : list Z :=
-  match k with KTcp => [real] | KHttp => par | KMux => firstn 2 par end.
+  match k with KTcp => [real] | KHttp => firstn 3 par | KMux => firstn 2 par end.
 Definition g_res (k : kind) (g : grp) : list Z := res_of k (g_par g) (g_real g).
 
 Definition members (k : kind) (g : grp) : list Z :=
@@ -207,10 +208,10 @@ Definition mutate (k : kind) (s : st) (gid : nat) (j : jreq) (lid : Z) : st * jr
         else (set_heap s (upd (s_heap s) gid (add_ln g lid)), JOk 0)
     | KHttp =>
         if is_nil (g_funcs g) then
-          if rmem (j_par j) (s_used s) then (s, JErr ERouteConflict)
+          if rmem (res_of KHttp (j_par j) 0) (s_used s) then (s, JErr ERouteConflict)
           else (* the repeated-name test cannot fire: createFuncs is empty *)
             (set_used (set_heap s (upd (s_heap s) gid (add_func (set_http_first g j) (j_m j))))
-                      (j_par j :: s_used s), JOk 0)
+                      (res_of KHttp (j_par j) 0 :: s_used s), JOk 0)
         else if negb (g_name g =? j_group j) || negb (lz_eqb (g_par g) (j_par j)) then (s, JErr EParams)
         else if negb (g_key g =? j_key j) then (s, JErr EAuth)
         else if zmem (j_m j) (g_funcs g) then (s, JErr ERepeated)
